@@ -89,6 +89,40 @@ func genSlices(c *GenCtx) {
 			}
 		}
 	}
+	// indices around the sizes of the small integer types, on arrays long enough to hold them, with and without a left
+	// operand and inside projections
+	mk := func(n int) string {
+		var sb strings.Builder
+		sb.WriteString("[")
+		for i := 0; i < n; i++ {
+			if i > 0 {
+				sb.WriteString(",")
+			}
+			sb.WriteString(strconv.Itoa(i))
+		}
+		sb.WriteString("]")
+		return sb.String()
+	}
+	a300 := mk(300)
+	for _, ix := range []int{0, 1, 126, 127, 128, 129, 254, 255, 256, 257, 258, 298, 299, 300, 301, 511, 512} {
+		for _, sign := range []string{"", "-"} {
+			lit := sign + strconv.Itoa(ix)
+			c.add("index-boundary", "["+lit+"]", a300)
+			c.add("index-boundary", "@["+lit+"]", a300)
+			c.add("index-boundary", "rows[*]["+lit+"]", `{"rows":[`+a300+`,[0,1]]}`)
+			c.add("index-boundary", "rows[0]["+lit+"]", `{"rows":[`+a300+`]}`)
+			c.add("index-boundary", "["+lit+":]"+" | [0]", a300)
+			c.add("index-boundary", "[:"+lit+"]"+" | length(@)", a300)
+		}
+	}
+	// a truncating conversion shows on a short array too: the index must be out of range (null), not wrap to a small one
+	for _, ix := range []string{"32767", "32768", "65535", "65536", "65537", "2147483647", "2147483648", "4294967295", "4294967296", "4294967297", "9223372036854775807"} {
+		for _, sign := range []string{"", "-"} {
+			c.add("index-boundary", "["+sign+ix+"]", a300)
+			c.add("index-boundary", "@["+sign+ix+"]", `[0,1,2]`)
+			c.add("index-boundary", "rows[*]["+sign+ix+"]", `{"rows":[[0,1,2],[3]]}`)
+		}
+	}
 }
 
 // ---------------------------------------------------------------------------------------------
@@ -392,6 +426,16 @@ func (c *GenCtx) decimalText() string {
 // results at and beyond the edge of the decimal range, with every sign combination
 func genOverflow(c *GenCtx) {
 	r := c.Rng
+	// every operator on every pair of range-end operands, both signs: overflow upwards and downwards, underflow
+	ends := []string{"9e6144", "-9e6144", "5e6144", "-5e6144", "1e6144", "-1e6144", "9.999999999999999999999999999999999e6144", "-9.999999999999999999999999999999999e6144",
+		"1e-6176", "-1e-6176", "1e6000", "-1e6000", "1e-6000", "-1e-6000", "2", "-2", "0"}
+	for _, a := range ends {
+		for _, b := range ends {
+			for _, e := range []string{"a + b", "a - b", "a * b", "a / b", "a // b", "a % b", "sum([a, b])", "avg([a, b])", "sum([a, b, a])", "-a - b", "a + b + a", "abs(a) + abs(b)"} {
+				c.add("overflow-ends", e, `{"a":`+a+`,"b":`+b+`}`)
+			}
+		}
+	}
 	bigs := []string{"1e6000", "-1e6000", "9e6144", "-9e6144", "1e3100", "-1e3100", "5e6143", "-5e6143", "1e-6000", "-1e-6000", "1e-3100", "2", "-2", "0", "-0", "1e200", "-1e200", "0.5", "-3"}
 	for k := 0; k < c.n(3000, 60000); k++ {
 		a, b := r.Pick(bigs), r.Pick(bigs)
@@ -1155,7 +1199,7 @@ func genEquality(c *GenCtx) {
 // ---------------------------------------------------------------------------------------------
 // C04 / C10: token strings, bounded-exhaustive
 
-var tokAlphabet = []string{"a", "b", `"k"`, "'s'", "`1`", "`[1,2]`", "@", "$", "$x", "1", "-1", "0", "(", ")", "[", "]", "{", "}", "[*]", "[]", "[?", ".", ".*", "*", ",", ":", "|", "||", "&&", "&", "!", "==", "<", "+", "-", "/", "//", "%", "let", "in", "=", "abs", "sort_by", "foo"}
+var tokAlphabet = []string{"a", "b", `"k"`, "'s'", "`1`", "`[1,2]`", "@", "$", "$x", "1", "-1", "0", "(", ")", "[", "]", "{", "}", "[*]", "[]", "[?", ".", ".*", "*", ",", ":", "|", "||", "&&", "&", "!", "==", "<", "+", "-", "/", "//", "%", "let", "in", "=", "abs", "sort_by", "foo", "×", "÷", "−"}
 
 func genTokens(c *GenCtx) {
 	doc := `{"a":[{"a":1,"b":[1,2]},{"a":2,"b":[3]},null],"b":{"a":{"b":3},"k":[4,5]},"k":"kv","foo":7}`
